@@ -150,6 +150,53 @@ theorem grad_buffer_dtype_shape (ns : Graph (NDArray α)) (h0 : GradShapesOK ns)
     (fun r' hr' => by rw [hr] at hr'; cases hr'; exact hg)
   exact key
 
+/-- **`backward(grad)` goes ahead only with an upstream gradient of exactly the root's shape** — same rank and
+    every extent equal (a `(1,)` gradient for a 0-d root, an `(n, 1)` one for an `(n,)` root, a prefix of the
+    shape … are all refused): the hypothesis `hg` of `grad_buffer_dtype_shape` is what the API checks. -/
+theorem backward_accepts_only_matching_shape (st st' : TState α) (root : Nat) (g : NDArray α) (tr : List TrEv)
+    (h : Api.backward st root g = (st', some tr)) :
+    ∃ v, st.vals[root]? = some v ∧ g.shape = v.shape := by
+  unfold Api.backward at h
+  split at h
+  · rename_i r v hr hv
+    refine ⟨v, hv, ?_⟩
+    by_cases hrg : r.reqGrad = true
+    · simp only [hrg, Bool.not_true, Bool.false_eq_true, if_false] at h
+      by_cases hs : (v.shape != g.shape) = true
+      · simp [hs] at h
+      · simp only [bne_iff_ne, ne_eq, Decidable.not_not] at hs
+        exact hs.symm
+    · simp [hrg] at h
+  · simp at h
+
+/-- **The `.grad` setter stores only an array of exactly the tensor's shape**, and leaves the invariant in
+    place (`hz`: the node's `zero` field is `zeros_like` of its value — `mkTensor_zero_shape'`). -/
+theorem assignGrad_keeps_shapes (st st' : TState α) (i : Nat) (g : NDArray α) (h0 : GradShapesOK st.g)
+    (hz : ∀ n v, st.g[i]? = some n → st.vals[i]? = some v → n.zero.shape = v.shape)
+    (h : assignGrad st i g = some st') :
+    (∃ v, st.vals[i]? = some v ∧ g.shape = v.shape) ∧ GradShapesOK st'.g := by
+  unfold assignGrad at h
+  split at h
+  · rename_i n v hn hv
+    by_cases hs : (v.shape != g.shape) = true
+    · simp [hs] at h
+    · simp only [hs, Bool.false_eq_true, if_false, Option.some.injEq] at h
+      simp only [bne_iff_ne, ne_eq, Decidable.not_not] at hs
+      subst h
+      refine ⟨⟨v, hv, hs.symm⟩, ?_⟩
+      have h0' : Proofs.Api.BufInv (G := NDArray α) (fun z x => x.shape = z.shape) st.g := h0
+      exact Proofs.Api.bufInv_setGrad (G := NDArray α) (R := fun z x => x.shape = z.shape) h0' i (some g)
+        (fun m y hm hy => by
+          cases hy
+          rw [hn] at hm; cases hm
+          rw [hz n v hn hv]; exact hs.symm)
+  · simp at h
+
+/-- non-vacuity of the refusal: a `(1,)` gradient for a 0-d root is not accepted (and neither is the setter's) -/
+example : (Api.backward (α := Int) ⟨[⟨[], true, none, false, none, ⟨[], [0]⟩⟩], [⟨[], [5]⟩], [.f64], {}⟩ 0 ⟨[1], [1]⟩).2 = none := by decide
+example : (assignGrad (α := Int) ⟨[⟨[], true, none, false, none, ⟨[], [0]⟩⟩], [⟨[], [5]⟩], [.f64], {}⟩ 0 ⟨[1], [1]⟩).isNone = true := by decide
+example : (assignGrad (α := Int) ⟨[⟨[], true, none, false, none, ⟨[], [0]⟩⟩], [⟨[], [5]⟩], [.f64], {}⟩ 0 ⟨[], [1]⟩).isSome = true := by decide
+
 /-
 STATEMENT FALSE AS WRITTEN (kept for reference, replaced by `mkTensor_zero_shape'` below).
 
